@@ -77,6 +77,7 @@ func checkC01(r *evid.Run) {
 	}
 	concs := tok.Concs(r.Seed, nconc, allChunkIDs)
 	concs = append(concs, tok.InvalidUTF8Conc(int(r.Seed), allChunkIDs)) // names are bytes: also bytes that are not UTF-8
+	concs = append(concs, tok.HashTwinConc(int(r.Seed)+2, allChunkIDs))  // ... and equal only when their bytes are: names that collide under 32-bit hashes
 	names := []string{}
 	for _, c := range concs {
 		names = append(names, c.Name)
